@@ -40,7 +40,16 @@ var defers = []kv{
 	{"loopcopy", "dst := make([]int, 4)\ndefer func() { Show(\"d-loopcopy\", dst) }()\nfor i := 0; i < 3; i++ {\ndefer copy(dst[i:], []int{i + 1})\n}"},
 	{"loopmethod", "for i := 0; i < 2; i++ {\ndefer pp.PM(i * 5)\n}"},
 	{"loopnamed", "for i := 0; i < 2; i++ {\ndefer named2(\"d-loopnamed\", i)\n}"},
+	// second generation (ext): recover() called directly by a deferred DECLARED function / method / function value
+	{"namedrec", `defer recNamed("d-namedrec")`},
+	{"methodrec", `defer tt.Rec()`},
+	{"pmethodrec", `defer pp.PRec()`},
+	{"funcvalrec", "fv := recNamed\ndefer fv(\"d-funcvalrec\")"},
+	{"namedrecres", `defer recRes(&res)`},
 }
+
+// ext kinds are combined with the core kinds only (both orders), to keep the generated binary linkable.
+var extDefer = map[string]bool{"namedrec": true, "methodrec": true, "pmethodrec": true, "funcvalrec": true, "namedrecres": true}
 
 var endings = []kv{
 	{"ret", "return 1"},
@@ -73,6 +82,18 @@ var tt = T{7}
 var pp = &T{4}
 
 func helper() { r := recover(); Show("helper-rec", r != nil) }
+
+func recNamed(tag string) { r := recover(); Show(tag, r != nil) }
+
+func (t T) Rec() { describe("d-methodrec", recover()) }
+
+func (t *T) PRec() { r := recover(); Show("d-pmethodrec", r != nil, t.N) }
+
+func recRes(res *int) {
+	if r := recover(); r != nil {
+		*res = -7
+	}
+}
 
 func named(s string) { Show("d-named", s) }
 
@@ -129,6 +150,10 @@ func stacks(max int) [][]int {
 	if max >= 2 {
 		for a := range defers {
 			for b := range defers {
+				na, nb := defers[a].name, defers[b].name
+				if (extDefer[na] && !coreDefer[nb]) || (extDefer[nb] && !coreDefer[na]) {
+					continue
+				}
 				out = append(out, []int{a, b})
 			}
 		}
